@@ -383,6 +383,14 @@ def native_replay(unit: str, obligation: str, model: dict) -> tuple[bool, str]:
         return asyncio.run(wake())
     if unit.startswith("reconnect/"):
         return native_reconnect()
+    if unit.startswith("retry/"):
+        # the scripted-transport reference search of C04 (reconnect hands out a new transport,
+        # the old one is dead)
+        from . import c04
+        m = c04.native_search(unit, "O-reference-outcome", 0)
+        if m is None:
+            return False, "every event script up to length 3 ends as the statement implies"
+        return c04.native_replay(unit, "O-reference-outcome", m)
     if unit != "closed/hsfz":
         return False, "no native scenario for this obligation"
 
